@@ -2,7 +2,8 @@
    Gen/SqlShapes.v is regenerated from vizier/_src/service/sql_datastore.py on every run (harness/translate/sqlshape.py):
    per SQLDataStore method, the skeleton of reads / writes / commit / rollback / raise inside `with self._lock`. *)
 From VZ Require Import Base.Prelude Model.SqlShape Gen.SqlShapes Proofs.SqlShapeP
-                       Model.Service Model.ServiceEq Model.Crash Proofs.CrashP.
+                       Model.Service Model.ServiceEq Model.Crash Proofs.CrashP Proofs.WedgeP Proofs.FrameP Proofs.CrashFrameP.
+
 
 (* every datastore method, as written today, passes the transaction-shape check *)
 Theorem C05_all_methods_have_atomic_shape : forallb (fun p => shape_ok (snd p)) all_shapes = true.
@@ -59,3 +60,14 @@ Proof. split; reflexivity. Qed.
 (* a shape with a commit between two writes (two transactions) is rejected *)
 Example C05_two_commits_rejected : shape_ok B[STryWrite; SCommit; STryWrite; SCommit] = false.
 Proof. reflexivity. Qed.
+
+(* CRASH ANYWHERE.  Along every history, a crash after ANY number m of datastore primitives of ANY next RPC (any kind, any
+   arguments, any Pythia answer) leaves a durable state in which every trial that was stored before and is stored after
+   has evolved by a legal transition (same id and parameters, state moved along the documented graph or stayed, completed
+   trials untouched, owner kept), study keys / operation keys / trial ids are still unique.  Single-resource RPCs go through
+   at most one successful mutation, so their durable state is the state before or after the call; SuggestTrials is followed
+   prefix by prefix through its assignment loop. *)
+Theorem C05_crash_anywhere_keeps_lifecycle : forall ops r po m, let s := run_all ops init_state in
+  frame s (run_upto m (handler r) s po) /\ WedgeP.wf (run_upto m (handler r) s po) /\ wf_t (run_upto m (handler r) s po).
+Proof. exact crash_frame_history. Qed.
+Print Assumptions C05_crash_anywhere_keeps_lifecycle.
